@@ -84,6 +84,7 @@ type SymRun struct {
 	RecBound   int
 	Concrete   map[string]int64 // fix all nondets (translator validation)
 	Prune      bool
+	ForkFuncs  []string
 	InitPkgs   func(string) bool
 	InitExtra  []string
 	Intrinsics map[string]engine.Intrinsic
@@ -91,12 +92,14 @@ type SymRun struct {
 }
 
 type SymResult struct {
-	Engine   *engine.Engine
-	Final    *engine.St
-	Obs      []engine.Obligation
-	Outcomes []engine.Outcome
-	ExecS    float64
-	SolveS   float64
+	Engine              *engine.Engine
+	Final               *engine.St
+	Obs                 []engine.Obligation
+	Outcomes            []engine.Outcome
+	ExecS               float64
+	FeasCalls, FeasHits int
+	FeasSecs            float64
+	SolveS              float64
 }
 
 func defaultInit(pkgPath string, extra []string) func(string) bool {
@@ -131,13 +134,18 @@ func Exec(prog *ssa.Program, pkg *ssa.Package, modPrefix string, r SymRun) (*Sym
 	if fn == nil {
 		return nil, fmt.Errorf("harness %s not found in %s", r.Harness, pkg.Pkg.Path())
 	}
-	cfg := engine.Config{Trace: os.Getenv("GV_TRACE") != "",LoopBound: r.LoopBound, LoopBounds: r.LoopBounds, RecBound: r.RecBound, PruneBranch: r.Prune, Intrinsics: r.Intrinsics}
+	cfg := engine.Config{Trace: os.Getenv("GV_TRACE") != "", LoopBound: r.LoopBound, LoopBounds: r.LoopBounds, RecBound: r.RecBound, PruneBranch: r.Prune, Intrinsics: r.Intrinsics}
 	cfg.InitPkgs = r.InitPkgs
+	cfg.ForkFuncs = map[string]bool{}
+	for _, f := range r.ForkFuncs {
+		cfg.ForkFuncs[f] = true
+	}
 	if cfg.InitPkgs == nil {
 		cfg.InitPkgs = defaultInit(pkg.Pkg.Path(), r.InitExtra)
 	}
 	if r.Concrete == nil {
 		cfg.Session = solver.NewSessionMust()
+		cfg.Session.Incremental = true
 		defer cfg.Session.Close()
 	}
 	e := engine.New(prog, cfg)
@@ -149,6 +157,9 @@ func Exec(prog *ssa.Program, pkg *ssa.Package, modPrefix string, r SymRun) (*Sym
 	t0 := time.Now()
 	final, err := e.Run(fn)
 	res := &SymResult{Engine: e, Final: final, ExecS: time.Since(t0).Seconds()}
+	if cfg.Session != nil {
+		res.FeasCalls, res.FeasHits, res.FeasSecs = cfg.Session.Calls+cfg.Session.IncCalls, cfg.Session.Hits, cfg.Session.Secs
+	}
 	if err != nil {
 		return res, err
 	}
@@ -236,4 +247,47 @@ func SortedKeys(m map[string]int) []string {
 	}
 	sort.Strings(ks)
 	return ks
+}
+
+// BuildReplayBinary compiles the package's test binary with harness, support and replay test.
+func (t *Target) BuildReplayBinary(bin, tmp string) error {
+	ovm := t.overlayMap()
+	sup := filepath.Join(tmp, "support_"+t.PkgName+".go")
+	tst := filepath.Join(tmp, "replay_"+t.PkgName+"_test.go")
+	os.WriteFile(sup, SupportSource(t.PkgName), 0o644)
+	os.WriteFile(tst, TestSource(t.PkgName), 0o644)
+	ovm[filepath.Join(t.PkgDir, "zz_verif_support.go")] = sup
+	ovm[filepath.Join(t.PkgDir, "zz_verif_replay_test.go")] = tst
+	ovj, _ := json.Marshal(map[string]interface{}{"Replace": ovm})
+	ovf := filepath.Join(tmp, "overlay_"+t.PkgName+".json")
+	os.WriteFile(ovf, ovj, 0o644)
+	cmd := exec.Command("go", "test", "-c", "-o", bin, "-tags", "verif", "-vet=off", "-overlay", ovf, t.PkgPath)
+	cmd.Dir = t.ModDir
+	cmd.Env = append(append(os.Environ(), GoEnv()...), t.ExtraEnv...)
+	out, err := cmd.CombinedOutput()
+	if err != nil {
+		return fmt.Errorf("building native replay binary: %v\n%s", err, out)
+	}
+	return nil
+}
+
+// RunReplayBinary runs one harness natively on a replay file.
+func (t *Target) RunReplayBinary(bin, harness, replayPath string) (*NativeResult, error) {
+	cmd := exec.Command("timeout", "120", bin, "-test.run", "^TestVerifReplay$", "-test.v")
+	cmd.Dir = t.PkgDir
+	cmd.Env = append(os.Environ(), "VERIF_REPLAY="+replayPath, "VERIF_HARNESS="+harness)
+	var out bytes.Buffer
+	cmd.Stdout = &out
+	cmd.Stderr = &out
+	cmd.Run()
+	m := resRe.FindStringSubmatch(out.String())
+	if m == nil {
+		return &NativeResult{Raw: out.String()}, fmt.Errorf("replay produced no result:\n%s", out.String())
+	}
+	var nr NativeResult
+	if err := json.Unmarshal([]byte(m[1]), &nr); err != nil {
+		return nil, err
+	}
+	nr.Raw = out.String()
+	return &nr, nil
 }
